@@ -148,6 +148,12 @@ func classify(h *History) facts {
 	add(h.Sc.Cfg.Early, "early_return")
 	add(len(h.Sc.Cfg.Keys) > 0, "metadata_keys")
 	add(h.Stuck, "bubble_abandoned")
+	if h.Sc.Retain {
+		f.labels = append(f.labels, "next_consumer_keeps_and_modifies_batches")
+	}
+	if h.Sc.SmallIDs {
+		f.labels = append(f.labels, "request_spans_share_a_span_id")
+	}
 	f.labels = append(f.labels, "signal="+h.Sc.Signal, fmt.Sprintf("max_concurrency=%d", h.Sc.Cfg.MaxConc), fmt.Sprintf("exports=%s", bucket(len(h.Exports))))
 	refused := 0
 	for _, c := range h.Callers {
@@ -244,7 +250,7 @@ func sequentialScenario(sc *Scenario) bool {
 var specs = map[string]propSpec{
 	"C05": {
 		id:         "C05",
-		profile:    Profile{Gated: 30, AutoFail: true, Cancels: false, Shutdown: true, Conc: []int{0, 0, 1, 2}, EarlyPct: 40, SharedCtx: true, Concurrent: true, MetaPct: 25, DelayedConsume: 15, FailKinds: true},
+		profile:    Profile{Gated: 30, AutoFail: true, Cancels: false, Shutdown: true, Conc: []int{0, 0, 1, 2}, EarlyPct: 40, SharedCtx: true, Concurrent: true, MetaPct: 25, DelayedConsume: 15, FailKinds: true, RetainPct: 25},
 		verdict:    VerdictC05,
 		nontrivial: func(f facts, h *History) bool { return f.split || f.merged },
 	},
@@ -268,7 +274,7 @@ var specs = map[string]propSpec{
 	},
 	"C11": {
 		id:         "C11",
-		profile:    Profile{Gated: 85, HonourCancel: 30, Cancels: true, Deadlines: true, Shutdown: true, Conc: []int{0, 1, 1, 2, 3}, EarlyPct: 25, SharedCtx: true, Concurrent: true, MetaPct: 25, DelayedConsume: 15, FailKinds: true},
+		profile:    Profile{Gated: 85, HonourCancel: 30, Cancels: true, Deadlines: true, Shutdown: true, Conc: []int{0, 1, 1, 2, 3}, EarlyPct: 25, SharedCtx: true, Concurrent: true, MetaPct: 25, DelayedConsume: 15, FailKinds: true, RetainPct: 40},
 		verdict:    VerdictC11,
 		nontrivial: func(f facts, h *History) bool { return h.Sc.Gated && len(h.Exports) >= 2 },
 	},
